@@ -35,7 +35,8 @@ def sugar_table(p1, p2, inp=(True, True, True, True)):
         leaf(1, "x", ["", "i"]), leaf(2, "en", ["", "T", "F"], treegen.meta_bytes([("toggle", None)])),
         sub(3, [L("m/")], 30, enabledby=2), leaf(4, "m", [""]),
         sub(5, [L("p1/")], 50, ptr="member" if p1 else "null"), sub(6, [L("p2/")], 60, ptr="member" if p2 else "null"),
-        arr_elem(0, inp[0:2]), arr_elem(1, inp[2:4])])
+        arr_elem(0, inp[0:2]), arr_elem(1, inp[2:4]),
+        sub(8, [L("first/")], 90), leaf(9, "first", [""])])      # a member sub-tree at offset 0 of the application object
 
 
 def run_walk(ctx, inputs, tag, mode="walk"):
